@@ -659,6 +659,9 @@ func compareNode(ctx context.Context, repo *repository.Repository, got *data.Nod
 	if got.UID != want.UID || got.GID != want.GID {
 		return fmt.Sprintf("%s: owner %d:%d, want %d:%d", path, got.UID, got.GID, want.UID, want.GID)
 	}
+	if got.User != want.User || got.Group != want.Group {
+		return fmt.Sprintf("%s: owner names %q:%q, want %q:%q", path, got.User, got.Group, want.User, want.Group)
+	}
 	if want.Mode&os.ModeDevice != 0 && got.Device != want.Dev {
 		return fmt.Sprintf("%s: device %#x, want %#x", path, got.Device, want.Dev)
 	}
